@@ -579,7 +579,7 @@ def draw_parameters(ctx, chk):
             for single_pass in (False, True):
                 tag = "by_label=%s,single_pass=%s" % (by_label, single_pass)
                 try:
-                    outs = ctx.explore(lambda: ev.call(ctx.method(ctx.scores_obj("pos", "pos"), "_sample_indices"), [], {"by_label": Const(by_label), "single_pass": Const(single_pass)}), chk, max_paths=1500)
+                    outs = ctx.explore(lambda: ev.call(ctx.method(ctx.scores_obj("pos", "pos"), "_sample_indices"), [], {"by_label": Const(by_label), "single_pass": Const(single_pass)}), chk, max_paths=8000)
                 except Exception as e:  # noqa: BLE001
                     chk.unknown("R11.9", "%s: %s" % (tag, str(e)[:120]))
                     continue
